@@ -1,6 +1,6 @@
 """C01 - Declarative queries return what Python evaluation of the same expression returns."""
 import json
-import vlib, c01_lib as L, c01_harness as H, c01_join as J, c01_coll as C
+import vlib, c01_lib as L, c01_harness as H, c01_join as J, c01_coll as C, c01_aggr as A
 from vlib import Corr, Search, Failure
 
 ID = 'C01'
@@ -48,8 +48,8 @@ RULE = ('structural: all 1330 depth<=2 expressions over a 14-leaf alphabet (samp
         'distinct = distinct (provider, mode, query text); join and collection queries: hand-made shapes + seeded random queries (1-2 atoms, inner conditions of depth <= 3) '
         'on 4 providers and on real SQLite over fixed object graphs (groups with 0..4 members, None among member values and among g\'s own)')
 
-QUICK = dict(coll_queries=30, coll_search=150, join_queries=40, join_search=150, like_random=60, n_random=240, n_enum=300, n_depth3=60, sem_random=90, sem_enum=110, sem_depth3=30, rows=6, search_random=260, search_ext=160)
-THOROUGH = dict(coll_queries=400, coll_search=3000, join_queries=500, join_search=3000, like_random=600, n_random=2500, n_enum=1330, n_depth3=500, sem_random=600, sem_enum=700, sem_depth3=200, rows=14, search_random=4000, search_ext=3000)
+QUICK = dict(aggr_queries=30, aggr_search=200, coll_queries=30, coll_search=150, join_queries=40, join_search=150, like_random=60, n_random=240, n_enum=300, n_depth3=60, sem_random=90, sem_enum=110, sem_depth3=30, rows=6, search_random=260, search_ext=160)
+THOROUGH = dict(aggr_queries=400, aggr_search=4000, coll_queries=400, coll_search=3000, join_queries=500, join_search=3000, like_random=600, n_random=2500, n_enum=1330, n_depth3=500, sem_random=600, sem_enum=700, sem_depth3=200, rows=14, search_random=4000, search_ext=3000)
 
 
 def sizes(ctx, deep=False):
@@ -137,6 +137,16 @@ def correspondence(ctx):
         disagreements.append({'what': 'model and implementation differ (%s): %s' % (m['mode'], m['query']), 'input': {k: v for k, v in m.items() if k != 'impl'},
                               'impl': m['impl'], 'coq_case': c_exprs[i][:1500]})
 
+    # (7) aggregates as whole-query results: aggregate column + conditions on four providers, the value on real SQLite
+    a_exprs, a_meta, a_dis, a_nontriv, a_dist = A.aggr_cases(ctx, A.gen_queries(ctx, z.get('aggr_queries', 30)), real)
+    disagreements += a_dis
+    dist['aggregate'] = a_dist
+    a_bad = H.run_bools(ctx, a_exprs, name='aggr', header=A.AGGR_HEADER, prelude=real.prelude(), jobs=2)
+    for i in a_bad[:10]:
+        m = a_meta[i]
+        disagreements.append({'what': 'model and implementation differ (%s): %s' % (m['mode'], m['query']), 'input': {k: v for k, v in m.items() if k != 'impl'},
+                              'impl': m['impl'], 'coq_case': a_exprs[i][:1500]})
+
     like_report(k_fut.result())
     join_report(j_fut.result())
     bad = main_fut.result()
@@ -149,8 +159,8 @@ def correspondence(ctx):
     if s_meta: samples.append({'structural': s_meta[len(s_meta) // 2]})
     if m_meta: samples.append({'semantic': m_meta[len(m_meta) // 2]})
     samples.append({'coq_case': exprs[len(exprs) // 3][:600]})
-    dist['cases'] = {'structural': len(s_exprs), 'semantic': len(m_exprs), 'reference': len(r_exprs), 'like': len(k_exprs), 'join': len(j_exprs), 'collection': len(c_exprs)}
-    return Corr(cases=len(exprs) + len(k_exprs) + len(j_exprs) + len(c_exprs), nontrivial=len(s_nontriv) + len(m_nontriv) + len(k_nontriv) + len(j_nontriv) + len(c_nontriv), disagreements=disagreements, samples=samples, distribution=dist,
+    dist['cases'] = {'structural': len(s_exprs), 'semantic': len(m_exprs), 'reference': len(r_exprs), 'like': len(k_exprs), 'join': len(j_exprs), 'collection': len(c_exprs), 'aggregate': len(a_exprs)}
+    return Corr(cases=len(exprs) + len(k_exprs) + len(j_exprs) + len(c_exprs) + len(a_exprs), nontrivial=len(s_nontriv) + len(m_nontriv) + len(k_nontriv) + len(j_nontriv) + len(c_nontriv) + len(a_nontriv), disagreements=disagreements, samples=samples, distribution=dist,
                 note='every case is a boolean computed by vm_compute inside Coq from the model and the serialised implementation output')
 
 
@@ -191,6 +201,9 @@ def search(ctx, deep):
     creal = J.RealGraph(C.coll_graph())
     c_evals, c_fail, c_nontriv, c_dist = C.coll_search(ctx, C.gen_queries(ctx, z.get('coll_search', 150), search=True), creal)
     evals += c_evals; failures += c_fail; nontriv |= c_nontriv; dist['collection'] = c_dist
+    areal = H.RealDb(table_rows(ctx, 8))
+    a_evals, a_fail, a_nontriv, a_dist = A.aggr_search(ctx, A.gen_queries(ctx, z.get('aggr_search', 200), search=True), areal, H.RealDb)
+    evals += a_evals; failures += a_fail; nontriv |= a_nontriv; dist['aggregate'] = a_dist
     dist['inputs'] = {'corpus': len([1 for i in inputs if i[2] == 'corpus']), 'total': len(inputs)}
     samples = [{'query': 'select(p for p in P if %s)' % L.src(inputs[len(inputs) // 2][0]), 'params': inputs[len(inputs) // 2][1]}]
     return Search(evaluations=evals, failures=failures, nontrivial=len(nontriv), samples=samples, distribution=dist, exhaustive=False)
@@ -199,6 +212,7 @@ def search(ctx, deep):
 def replay(ctx, data):
     if 'join' in data: return J.replay_join(data['join'])
     if 'coll' in data: return C.replay_coll(data['coll'])
+    if 'aggr' in data: return A.replay_aggr(data['aggr'], H.RealDb)
     return H.replay_sqlite(data)
 
 
